@@ -29,6 +29,8 @@ CHECKS = {
              "Exploration over prior index states x working trees x argument lists; the new index, the stored blobs, the working tree and the rest of .goit are compared byte-wise with the model's prediction."),
     "C05": C("property-based testing (rapid): crafted staging areas (path sets x arbitrary 20-byte ids, independent encoder) -> write-tree/commit -> reset --mixed / ls-files / cat-file -p round trip; plus stateful histories with recorded staged sets",
              "Round-trip exploration: what the writer wrote is read back through Goit's reader and compared with the input and with an independent tree decoder, for names with spaces, between-sibling families, ids with 0x00/0x20/0x0a bytes and the empty snapshot."),
+    "C06": C("exhaustive small-scope enumeration of path sets (all sets up to size 4/5 over a 22-path universe around the byte order of '/', several insertion orders, x all query names) against store.Index + stateful property-based testing (rapid) through the CLI; oracle: independent index decoder and prefix semantics",
+             "Every path set up to the size bound is built through the real NewIndex/Update/DeleteEntry and reloaded; the file must decode to exactly the set, strictly ascending; GetEntry / IsRegisteredAsDirectory / GetEntriesByDirectory are compared with set membership and prefix selection for ~40 query names. CLI histories check the same after every index-modifying command."),
     "C07": C(SM + "oracle: set difference HEAD snapshot vs staging area from independent decoders, compared with parsed status output; commit refusal/acceptance",
              "Exploration over (HEAD snapshot, staging area) pairs reached by generated histories with between-sibling name families; status' staged section must equal the model's (kind, path) set and commit must be refused iff that set is empty."),
     "C08": C(SM + "oracle: reflog parsed before the reset names the target; per-mode postconditions on refs, index, working tree from independent decoders",
@@ -49,9 +51,11 @@ CHECKS = {
              "Exploration over working trees with ignorable directories/extensions, argument forms of add ('.', parent directory, the ignored path, .goit paths), with and without .goitignore."),
     "C18": C("grammar-based fuzzing of command lines (rapid) over all sub-commands x flags x argument classes against states reached by random prefixes; oracle: exit status in {0,1}, no panic text, confirmed time limit, byte-identical state for invalid-by-construction lines",
              "Exploration: thousands of generated command lines incl. missing/surplus arguments, malformed ids, regexp metacharacters, hostile branch names, against fresh / unconfigured / emptied / renamed / multi-branch states."),
+    "C19": C("systematic mutation (every truncation, single-byte deletion, 6 substitutions per position, content-level and compressed-level, swapped object files) + random/structured byte strings (rapid) + native coverage-guided fuzzing (thorough) of every loader; oracle: no panic, bounded time and allocation, returned object hashes to the requested id",
+             "Totality exploration of GetObject, NewTree, NewCommit, NewIndex, NewHead, NewRefs, NewConfig (local and global), NewReflog/GetRecord/Show, ReadHash, ReadNullTerminatedString, plus the read-only commands on mutated repositories."),
     "C20": C(SM + "oracle: independent parser of the documented config layout vs model after every write; effective identity in the next commit; refusal without side effects while unset",
              "Exploration over sequences of local/global writes (3 sections x 3 keys, values with = [ ] # quotes non-ASCII) interleaved with commits, all 16 combinations of (local set?, global set?) x (name, e-mail)."),
 }
 
 _pending = "check not built yet in this session (planned; see DESIGN.md section 4)"
-NOT_APPLICABLE = {k: _pending for k in ("C06", "C15", "C16", "C19")}
+NOT_APPLICABLE = {k: _pending for k in ("C15", "C16")}
